@@ -101,7 +101,15 @@ class Gen:
             "%s!?%s@*" % (n, us), "%s!~%s@127.?.0.1" % (n, us),
             # a literal piece after '*' that overlaps itself in the text: the matcher has to back up inside the text
             "*!*@*" + h[-4:], "*" + h[-3:], "%s!*@*%s" % (n, h[3:]), "*!*@*.0.2",
+            # every character for itself, case-sensitively: the same mask in another letter case is another mask
+            n.swapcase() + "!*@*", n.upper(), "*!~%s@*" % us.upper(), n.capitalize() + "!~" + us + "@*",
         ]
+        if any(ord(ch) > 127 for ch in n):
+            # '?' stands for one character, however many bytes it takes
+            one = "".join("?" if ord(ch) > 127 else ch for ch in n)
+            two = "".join("??" if ord(ch) > 127 else ch for ch in n)
+            forms += [one + "!*@*", two + "!*@*", one, two + "!*@*", one + "!*@*", "?" * len(n) + "!*@*",
+                      "?" * len(n.encode()) + "!*@*"]
         if self.hostile_masks and r.random() < 0.08:
             forms = ["*zzzzzzzzzzzzzzzzzzzzzzzzzzzzzzzzzzzzzzzzzzzzzz", "*!*@*aaaaaaaaaaaaaaaaaaaaaaaaaaaaaaaaaaaaaaaaaaaaa*",
                      "é*!*@*", "*é", "?é?", "*" + "q" * 40 + "*!*@*"]
